@@ -166,6 +166,18 @@ def judge_log(rigrec, conn, script, published, counters, limit, backend, descr, 
         if not last.refused and not last.conn_closed and last.ended_n is None and final_open_check:
             if not [n for n in eoses if n > last.start_n]:
                 viols.append({"key": "%s/no-eose" % backend, "msg": "[%s] REQ %r %s is still open at quiescence but never got an EOSE (%s)" % (backend, sub, json.dumps(last.filters)[:80], descr)})
+            else:
+                # an EOSE comes BEHIND the stored events of its REQ: an EOSE frame that precedes a stored result of the
+                # open generation belongs to an earlier REQ of the same id, so this one is still waiting for its own
+                stored_n = [n for n, f in parsed if n > last.start_n and isinstance(f, list) and len(f) > 2 and f[0] == "EVENT" and f[1] == sub
+                            and isinstance(f[2], dict) and 0 < published.get(f[2].get("id"), 0) < last.start_n
+                            and any(ref.match3(f[2], fl) != ref.NO for fl in last.filters if isinstance(fl, dict))]
+                if stored_n:
+                    bump("eose_behind_stored_results")
+                    if not [n for n in eoses if n > max(stored_n)]:
+                        viols.append({"key": "%s/no-eose/behind-stored-results" % backend,
+                                      "msg": "[%s] REQ %r %s is still open at quiescence, its stored events were sent (last at #%d) but no EOSE followed them - the only EOSE frames for the id (%s) precede them (%s)"
+                                             % (backend, sub, json.dumps(last.filters)[:80], max(stored_n), eoses, descr)})
         # ---- frames after close / replacement ------------------------------------------------
         for gi, g in enumerate(gl):
             if g.refused or g.conn_closed or g.ended_n is None:
